@@ -105,146 +105,267 @@ func isFloat(t types.Type) bool {
 	return ok && b.Info()&(types.IsFloat|types.IsComplex) != 0
 }
 
-// threadBoolPhis undoes "a condition computed as a value": a block that consists of a boolean phi and a
-// branch on it (what "case a && b:" of a tagless switch, or "ok := a || b; if ok", compile to) is removed and
-// its predecessors are wired to the branch targets directly - the short-circuit exits (constant edges) jump to
-// the side their constant selects, the predecessor that computed the last operand branches on it.  The result
-// is the control-flow graph that "if a && b" produces, so every rule sees one form.  Only blocks whose phi has
-// no other use are touched; phis of the targets get the edges of the new predecessors; dominators are rebuilt.
+// threadBoolPhis undoes "a condition computed as a value": a block that consists of phis and a branch on
+// one of them (what "case a && b:" of a tagless switch, "ok := a || b; if ok", or the merged results of an
+// inlined helper followed by "if decided" compile to) is removed and its predecessors are wired to the branch
+// targets directly - the edges that carry a constant jump to the side the constant selects, a predecessor
+// that computed the value branches on it.  The result is the control-flow graph that "if a && b" produces, so
+// every rule sees one form.  The branched-on phi must have no other use; further phis of the block (the
+// second result of an inlined helper) are re-created in the target whose region uses them.  A phi whose
+// edges are all constants is a flag variable of the source ("found := false ... found = true") and stays,
+// unless it merges the results of an inlined call.  Dominators are rebuilt.
 func threadBoolPhis(fn *ssa.Function) {
 	changed := false
 	for again := true; again; {
 		again = false
 		for _, b := range fn.Blocks {
-			if b == nil || len(b.Instrs) != 2 || len(b.Succs) != 2 || b.Succs[0] == b.Succs[1] || b == fn.Blocks[0] {
-				continue
+			if threadOne(fn, b) {
+				changed, again = true, true
+				break
 			}
-			phi, ok1 := b.Instrs[0].(*ssa.Phi)
-			iff, ok2 := b.Instrs[1].(*ssa.If)
-			if !ok1 || !ok2 || iff.Cond != ssa.Value(phi) {
-				continue
-			}
-			if refs := phi.Referrers(); refs == nil || len(*refs) != 1 {
-				continue
-			}
-			T, F := b.Succs[0], b.Succs[1]
-			if T == b || F == b {
-				continue
-			}
-			// every predecessor must be rewirable: a constant edge from any block, or a computed edge from a
-			// block that ends in an unconditional jump to b
-			okAll := len(b.Preds) >= 2
-			seenPred := map[*ssa.BasicBlock]bool{}
-			computed := 0
-			for i, pr := range b.Preds {
-				if seenPred[pr] || pr == b {
-					okAll = false
-				}
-				seenPred[pr] = true
-				if c, isC := phi.Edges[i].(*ssa.Const); isC && c.Value != nil {
-					continue
-				}
-				computed++
-				if _, isJ := pr.Instrs[len(pr.Instrs)-1].(*ssa.Jump); !isJ || len(pr.Succs) != 1 {
-					okAll = false
-				}
-			}
-			// a phi whose edges are all constants is a flag variable ("found := false ... found = true"),
-			// not a short-circuit expression: left as it is (rules read such flags)
-			if !okAll || computed == 0 {
-				continue
-			}
-			edgeIndex := func(t *ssa.BasicBlock) int {
-				for i, p := range t.Preds {
-					if p == b {
-						return i
-					}
-				}
-				return -1
-			}
-			kT, kF := edgeIndex(T), edgeIndex(F)
-			if kT < 0 || kF < 0 {
-				continue
-			}
-			addPred := func(t *ssa.BasicBlock, k int, pr *ssa.BasicBlock) {
-				t.Preds = append(t.Preds, pr)
-				for _, ins := range t.Instrs {
-					ph, ok := ins.(*ssa.Phi)
-					if !ok {
-						break
-					}
-					v := ph.Edges[k]
-					ph.Edges = append(ph.Edges, v)
-					if r := v.Referrers(); r != nil {
-						*r = append(*r, ph)
-					}
-				}
-			}
-			for i, pr := range b.Preds {
-				e := phi.Edges[i]
-				if c, isC := e.(*ssa.Const); isC && c.Value != nil {
-					t, k := F, kF
-					if constant.BoolVal(c.Value) {
-						t, k = T, kT
-					}
-					for j, s := range pr.Succs {
-						if s == b {
-							pr.Succs[j] = t
-						}
-					}
-					addPred(t, k, pr)
-					continue
-				}
-				// computed edge: the jump becomes a branch on the value
-				nif := ssa.GcvNewIf(e, pr)
-				pr.Instrs[len(pr.Instrs)-1] = nif
-				if r := e.Referrers(); r != nil {
-					// the phi is leaving: replace it in the referrer list by the new branch
-					for x, u := range *r {
-						if u == ssa.Instruction(phi) {
-							(*r)[x] = nif
-						}
-					}
-				}
-				pr.Succs = []*ssa.BasicBlock{T, F}
-				addPred(T, kT, pr)
-				addPred(F, kF, pr)
-			}
-			// b leaves the graph
-			dropPred := func(t *ssa.BasicBlock) {
-				k := edgeIndex(t)
-				if k < 0 {
-					return
-				}
-				t.Preds = append(t.Preds[:k:k], t.Preds[k+1:]...)
-				for _, ins := range t.Instrs {
-					ph, ok := ins.(*ssa.Phi)
-					if !ok {
-						break
-					}
-					ph.Edges = append(ph.Edges[:k:k], ph.Edges[k+1:]...)
-				}
-			}
-			dropPred(T)
-			dropPred(F)
-			b.Preds, b.Succs = nil, nil
-			b.Instrs = nil
-			for i, x := range fn.Blocks {
-				if x == b {
-					fn.Blocks = append(fn.Blocks[:i:i], fn.Blocks[i+1:]...)
-					break
-				}
-			}
-			for i, x := range fn.Blocks {
-				x.Index = i
-			}
-			changed, again = true, true
-			break
 		}
 	}
 	if changed {
 		ssa.GcvRebuildDomTree(fn)
 	}
+}
+
+func threadOne(fn *ssa.Function, b *ssa.BasicBlock) bool {
+	if b == nil || len(b.Instrs) < 2 || len(b.Succs) != 2 || b.Succs[0] == b.Succs[1] || b == fn.Blocks[0] {
+		return false
+	}
+	iff, ok := b.Instrs[len(b.Instrs)-1].(*ssa.If)
+	if !ok {
+		return false
+	}
+	var phis []*ssa.Phi
+	for _, ins := range b.Instrs[:len(b.Instrs)-1] {
+		ph, ok := ins.(*ssa.Phi)
+		if !ok {
+			return false
+		}
+		phis = append(phis, ph)
+	}
+	P, ok := iff.Cond.(*ssa.Phi)
+	if !ok || P.Block() != b {
+		return false
+	}
+	if refs := P.Referrers(); refs == nil || len(*refs) != 1 {
+		return false
+	}
+	T, F := b.Succs[0], b.Succs[1]
+	if T == b || F == b {
+		return false
+	}
+	if len(b.Preds) < 2 {
+		return false
+	}
+	seenPred := map[*ssa.BasicBlock]bool{}
+	computed := 0
+	for i, pr := range b.Preds {
+		if seenPred[pr] || pr == b {
+			return false
+		}
+		seenPred[pr] = true
+		if c, isC := P.Edges[i].(*ssa.Const); isC && c.Value != nil && c.Value.Kind() == constant.Bool {
+			continue
+		}
+		computed++
+		if _, isJ := pr.Instrs[len(pr.Instrs)-1].(*ssa.Jump); !isJ || len(pr.Succs) != 1 {
+			return false
+		}
+	}
+	if computed == 0 && P.Comment != "inl.result" {
+		return false // a flag variable of the source
+	}
+	edgeIndex := func(t *ssa.BasicBlock) int {
+		for i, p := range t.Preds {
+			if p == b {
+				return i
+			}
+		}
+		return -1
+	}
+	kT, kF := edgeIndex(T), edgeIndex(F)
+	if kT < 0 || kF < 0 {
+		return false
+	}
+	// the other phis: every use is an edge (from b) of a phi in T or F, or sits in the region of a target that
+	// is entered from b only
+	isOwn := map[ssa.Value]*ssa.Phi{}
+	for _, q := range phis {
+		isOwn[q] = q
+	}
+	type use struct {
+		q      *ssa.Phi
+		ins    ssa.Instruction
+		target *ssa.BasicBlock
+	}
+	var direct []use
+	for _, q := range phis {
+		if q == P {
+			continue
+		}
+		refs := q.Referrers()
+		if refs == nil {
+			continue
+		}
+		for _, u := range *refs {
+			if up, isPhi := u.(*ssa.Phi); isPhi && (up.Block() == T || up.Block() == F) {
+				k := kT
+				if up.Block() == F {
+					k = kF
+				}
+				okEdge := true
+				for ei, e := range up.Edges {
+					if e == ssa.Value(q) && ei != k {
+						okEdge = false
+					}
+				}
+				if okEdge {
+					continue
+				}
+				return false
+			}
+			ub := u.Block()
+			switch {
+			case ub == nil:
+				return false
+			case len(T.Preds) == 1 && (ub == T || T.Dominates(ub)):
+				direct = append(direct, use{q, u, T})
+			case len(F.Preds) == 1 && (ub == F || F.Dominates(ub)):
+				direct = append(direct, use{q, u, F})
+			default:
+				return false
+			}
+		}
+	}
+	// rewire
+	type np struct {
+		pr *ssa.BasicBlock
+		i  int
+	}
+	var toT, toF []np
+	for i, pr := range b.Preds {
+		e := P.Edges[i]
+		if c, isC := e.(*ssa.Const); isC && c.Value != nil && c.Value.Kind() == constant.Bool {
+			t := F
+			if constant.BoolVal(c.Value) {
+				t = T
+				toT = append(toT, np{pr, i})
+			} else {
+				toF = append(toF, np{pr, i})
+			}
+			for j, sx := range pr.Succs {
+				if sx == b {
+					pr.Succs[j] = t
+				}
+			}
+			continue
+		}
+		nif := ssa.GcvNewIf(e, pr)
+		pr.Instrs[len(pr.Instrs)-1] = nif
+		if r := e.Referrers(); r != nil {
+			*r = append(*r, nif)
+		}
+		pr.Succs = []*ssa.BasicBlock{T, F}
+		toT = append(toT, np{pr, i})
+		toF = append(toF, np{pr, i})
+	}
+	dropRef := func(v ssa.Value, user ssa.Instruction) {
+		if r := v.Referrers(); r != nil {
+			k := (*r)[:0]
+			for _, u := range *r {
+				if u != user {
+					k = append(k, u)
+				}
+			}
+			*r = k
+		}
+	}
+	addRef := func(v ssa.Value, user ssa.Instruction) {
+		if r := v.Referrers(); r != nil {
+			*r = append(*r, user)
+		}
+	}
+	fix := func(t *ssa.BasicBlock, k int, news []np) {
+		// existing phis of t: the edge from b is replaced by one edge per new predecessor
+		for _, ins := range t.Instrs {
+			ph, ok := ins.(*ssa.Phi)
+			if !ok {
+				break
+			}
+			old := ph.Edges[k]
+			var add []ssa.Value
+			for _, n := range news {
+				v := old
+				if q, own := isOwn[old]; own {
+					v = q.Edges[n.i]
+				}
+				add = append(add, v)
+				addRef(v, ph)
+			}
+			dropRef(old, ph)
+			ph.Edges = append(append(append([]ssa.Value{}, ph.Edges[:k]...), ph.Edges[k+1:]...), add...)
+		}
+		var preds []*ssa.BasicBlock
+		preds = append(preds, t.Preds[:k]...)
+		preds = append(preds, t.Preds[k+1:]...)
+		for _, n := range news {
+			preds = append(preds, n.pr)
+		}
+		t.Preds = preds
+	}
+	fix(T, kT, toT)
+	fix(F, kF, toF)
+	// phis of b that are used directly in a target's region are re-created there
+	made := map[*ssa.BasicBlock]map[*ssa.Phi]ssa.Value{}
+	for _, u := range direct {
+		if made[u.target] == nil {
+			made[u.target] = map[*ssa.Phi]ssa.Value{}
+		}
+		nv, ok := made[u.target][u.q]
+		if !ok {
+			news := toT
+			if u.target == F {
+				news = toF
+			}
+			if len(news) == 1 {
+				nv = u.q.Edges[news[0].i]
+			} else {
+				nph := ssa.GcvNewPhi(u.q, u.target)
+				for _, n := range news { // u.target.Preds is exactly news, in this order (it had b as only predecessor)
+					nph.Edges = append(nph.Edges, u.q.Edges[n.i])
+					addRef(u.q.Edges[n.i], nph)
+				}
+				u.target.Instrs = append([]ssa.Instruction{nph}, u.target.Instrs...)
+				nv = nph
+			}
+			made[u.target][u.q] = nv
+		}
+		for _, op := range u.ins.Operands(nil) {
+			if *op == ssa.Value(u.q) {
+				*op = nv
+			}
+		}
+		addRef(nv, u.ins)
+	}
+	for _, q := range phis {
+		for _, e := range q.Edges {
+			dropRef(e, q)
+		}
+	}
+	b.Preds, b.Succs, b.Instrs = nil, nil, nil
+	for i, x := range fn.Blocks {
+		if x == b {
+			fn.Blocks = append(fn.Blocks[:i:i], fn.Blocks[i+1:]...)
+			break
+		}
+	}
+	for i, x := range fn.Blocks {
+		x.Index = i
+	}
+	return true
 }
 
 // InlineView selects the second view of the program: helper functions that are called from one function only
